@@ -142,6 +142,12 @@ I_Recreate(s, x, w, h, al, a, withAlloc) ==
 \* a recreate whose allocation throws leaves the image as it was, including the recorded alignment (the pinned tree recorded the
 \* requested alignment before allocating, so that a later recreate with the same arguments returned early without realigning: fixed)
 I_RecreateFailed(s, x, al) == s
+\* an element constructor throws while the pixels are rebuilt in the image's own storage: the old pixels are gone, none is alive;
+\* the image holds no pixels and keeps its block (and records the requested alignment)
+I_RecreateCtorFailedInPlace(s, x, al) ==
+    LET u == s.img[x] IN SetImg(Destroy(s, u.blk, u.w * u.h), x, [u EXCEPT !.w = 0, !.h = 0, !.align = al, !.lay = al])
+I_RecreateDoesSomething(s, x, w, h, al, a, withAlloc) ==
+    LET u == s.img[x] IN ~(u.w = w /\ u.h = h /\ u.align = al /\ (~withAlloc \/ a = u.alloc))
 I_RecreateAllocates(s, x, w, h, al, a, withAlloc) ==
     LET u == s.img[x] IN
     ~(u.w = w /\ u.h = h /\ u.align = al /\ (~withAlloc \/ a = u.alloc)) /\ u.cap < Needed(w, h, al) /\ Needed(w, h, al) > 0
